@@ -8,7 +8,7 @@ def ops_all():
     for k in range(4):
         ops.append(('delete', k))
         ops.append(('remove', k))
-        for m in ('s', 'n', 'a'):
+        for m in ('s', 'n', 'a') + (('g',) if k < 2 else ()):
             ops.append(('replace', k, m))
         ops.append(('rename', k, 'sym'))
         ops.append(('rename', k, 'a'))
@@ -21,14 +21,14 @@ def ops_all():
         for i in range(3):
             for m in ('s', 'n'):
                 ops.append(('insert', c, i, m))
-        for m in ('s', 'n', 'a', 'sn'):
+        for m in ('s', 'n', 'a', 'sn', 'g', 'i'):
             ops.append(('append', c, m))
     return ops
 
 
 def plan(tier, seed):
     ops = ops_all()
-    structural = [o for o in ops if o[0] in ('replace', 'insert', 'append') and o[-1] in ('n', 'a', 'sn')]
+    structural = [o for o in ops if o[0] in ('replace', 'insert', 'append') and o[-1] in ('n', 'a', 'sn', 'g', 'i')]
     units = []
     ndocs = 7
     for di in range(ndocs):
